@@ -90,7 +90,9 @@ func (p *printer) printFile(file *ast.File) error {
 					default:
 						panic("unreachale")
 					}
-					p.print(d.Lparen, tok, token.COLON)
+					// keyword at its own position, the colon at d.Lparen (printing the keyword at the colon's
+					// position makes a comment right behind the colon look as if it preceded the colon)
+					p.print(d.Pos(), tok, d.Lparen, token.COLON)
 					if n := len(d.Specs); n > 0 {
 						p.print(indent, formfeed)
 						if n > 1 {
